@@ -171,6 +171,12 @@ def parseRegItem? (r : RegState) (s : String) : Option Item :=
 def parseRegItems? (r : RegState) (s : String) : Option Items :=
   if s == "-" then some [] else (s.splitOn ";").mapM (parseRegItem? r)
 
+def showRegItems (r : RegState) (l : Items) : String :=
+  if l.isEmpty then "-" else
+  ";".intercalate (l.map fun it => match it.1 with
+    | .num q => s!"n:{ratStr q}^{it.2}"
+    | .atom u => s!"u:{(r.unit u).symbol}^{it.2}")
+
 def optStr (s : String) : Option String :=
   if s == "-" then none else if s == "<empty>" then some "" else some s
 
@@ -347,6 +353,19 @@ def stepReg (st : DState) (args : List String) : Option (DState × String) :=
         let old := q.clsConverters c
         let convs := (q.converters.filter fun p => p.1 != c) ++ [(c, old ++ [tid])]
         some ({ st with q := { q with tables := q.tables ++ [{ rows := rws }], converters := convs } }, "ok")
+  | ["rt_mk", a] =>
+    -- terms over registry units (`Term(items)`, `.normalized()`, `==`, `hash`)
+    (parseRegItems? r a).map fun a => (st, "ok " ++ showRegItems r (mkTerm r.unitEnv a))
+  | ["rt_norm", a] =>
+    (parseRegItems? r a).map fun a =>
+      (st, "ok " ++ showRegItems r (termNormalized r.unitEnv (mkTerm r.unitEnv a)))
+  | ["rt_eq", a, b] =>
+    match parseRegItems? r a, parseRegItems? r b with
+    | some a, some b =>
+      let ta := mkTerm r.unitEnv a
+      let tb := mkTerm r.unitEnv b
+      some (st, s!"ok eq={termEq r.unitEnv ta tb} hasheq={termHashKey r.unitEnv ta == termHashKey r.unitEnv tb}")
+    | _, _ => none
   | ["conv_obj", name, _cls, rows] =>
     -- a table converter object, not yet registered anywhere
     let parsed := (rows.splitOn ";").mapM fun row =>
